@@ -28,8 +28,21 @@ def items(tier: str) -> List[str]:
     # longer straight-line programs with repeated instructions (overlapping matches)
     for body in (["int 1", "int 1", "int 1", "int 1", "pop", "pop", "pop"], ["La:", "int 1", "pop", "int 1", "pop", "int 1", "bnz La", "int 1", "pop"],
                  ["int 1", "bz La", "int 1", "pop", "b Lb", "La:", "int 1", "pop", "Lb:", "int 1", "pop", "int 1"],
-                 ["callsub La", "int 1", "pop", "int 1", "return", "La:", "int 1", "pop", "retsub"]):
+                 ["callsub La", "int 1", "pop", "int 1", "return", "La:", "int 1", "pop", "retsub"],
+                 # instructions that differ only in letter case are different instructions
+                 ['byte "Vote"', "pop", 'byte "vote"', "pop", "int 1", "bnz Done", "int 1", "bnz done", "Done:", "int 1", "return", "done:", "int 0",
+                  "return"],
+                 ["byte 0xAB", "pop", "byte 0xab", "pop", 'method "Add(uint64)void"', "pop", 'method "add(uint64)void"', "pop", "int 1"]):
         out.append("#pragma version 8\n" + "\n".join(body) + "\n")
+    # ladders: several paths reach the same code in different orders (forward jumps; with back edges in thorough)
+    for s in raw.ladders(5):
+        if tier != "quick" or s.count("int 5") == 2:
+            out.append(s)
+    if tier != "quick":
+        out.extend(raw.ladders(4, False))
+        out.extend(s for s in raw.ladders(5, False) if s.count("int 5") == 2)
+    else:
+        out.extend(s for s in raw.ladders(4, False) if s.count("int 5") <= 2)
     return out
 
 
